@@ -599,8 +599,11 @@ func (j *judge) txTask(tx *TxRec, req *ReqRec, reqTicks []int64, c core.Change, 
 	case bs == tClaimed && as == tClaimed:
 		// heartbeat of the owning process: only the lease end moves, to clock + ttl
 		ok := req != nil && req.Req.Kind == t_api.HeartbeatTasks && req.Req.HeartbeatTasks.ProcessId == b.S("process_id")
-		if g, tracked := j.lease[c.Key]; ok && (!tracked || a.I("expires_at")-a.I("ttl") < g) {
-			j.lease[c.Key] = a.I("expires_at") // timely heartbeat: clock reading before the lease ran out
+		if g, tracked := j.lease[c.Key]; ok && (!tracked || tx.Tick < g) {
+			// timely heartbeat: the renewal is committed before the lease ran out. (A heartbeat whose coroutine
+			// read the clock in time but whose write lands at or after the lease end races with a sweep that has
+			// already read the expired row; the statement promises nothing for it.)
+			j.lease[c.Key] = a.I("expires_at")
 		}
 		if !ok || a.S("process_id") != b.S("process_id") || a.I("ttl") != b.I("ttl") || ac != bc || !inTicks(reqTicks, a.I("expires_at")-a.I("ttl")) {
 			j.add("C07", "T4", "", "claimed task %s modified other than by a heartbeat of its holder to clock+ttl (tx#%d %s): %s -> %s", c.Key, tx.Seq, tx.ReqId, core.RowString(b), core.RowString(a))
